@@ -700,6 +700,11 @@ func OpenWith(path, tsFile string, nLog, hLog, cLog appendable.Appendable, opts 
 		t.committedNLogSize = validatedCLogEntry.finalNLogSize
 		t.committedHLogSize = validatedCLogEntry.finalHLogSize
 		t.minOffset = t.root.minOffset()
+
+		// the root loaded from disk is the latest stored snapshot,
+		// it will be used if insertion fails
+		t.lastSnapRoot = t.root
+		t.lastSnapRootAt = time.Now()
 	}
 
 	metricsBtreeNodesDataBeginOffset.WithLabelValues(t.path).Set(float64(t.minOffset))
